@@ -5,6 +5,16 @@ HERE = os.path.dirname(os.path.dirname(os.path.abspath(__file__)))
 
 # id -> (monitor, level, technique, level text, level note, design ref)
 CHECKS = {
+ "C09": ("svcmon", "exploration",
+         "runtime monitor: hostile request history against a real server child, per-request status/code/proof oracle, liveness probe, crash-mark scan",
+         "One long PRNG history per mode on one `gnark-mbu start` instance: non-POST methods, ~16 kinds of malformed bodies incl. body-read failures produced on the wire, wrong shapes (each array +-1/empty/10^4), every invalid batch class, wrong hashes, valid batches in four number styles. Every 200 body is verified as a Groth16 proof for the request's own hash with the vk held by the monitor; after every request a probe must be answered and stderr is scanned. Held on the requests sent.",
+         "Classes whose outcome the property leaves open accept either documented outcome; error messages are not compared.",
+         "DESIGN.md §C09"),
+ "C20": ("svcmon", "exploration",
+         "runtime monitor: recorded request/scrape history checked with porcupine against a per-(method,code) counter model + conservation after quiescence",
+         "Client-boundary history of sequential and concurrent (8/16 clients) mixed requests with a scraper running throughout; porcupine checks the history (request = increment inside its interval, scrape = read) partitioned by (method, code); after quiescence the scraped totals must equal the client tally and the gauge be 0; gauge bounded by overlapping operations on every scrape; scrapes must complete while proofs are in flight. Held on the histories recorded.",
+         "Assumes promhttp increments before the handler chain returns and small responses are flushed afterwards (checked implicitly: otherwise porcupine would reject the unchanged tree).",
+         "DESIGN.md §C20"),
  "C12": ("climon", "exploration",
          "runtime monitor: digests of the constraint system from every construction path, repeated/concurrent/fresh-process runs compared with each other",
          "For each dimension the SHA-256 of the constraint system from BuildR1CS*, Setup*, Import*Setup, 8 concurrent compilations, fresh r1cs processes under several GOMAXPROCS and the cs section of setup/import-setup keys files must all be equal (no pinned constant); interleaved multi-/single-block compile sequences; public wires [1, InputHash]; Solidity uint256[1]; depth-32 deletion refused on every path incl. import; thorough runs the monitor under -race. Held on the runs made.",
